@@ -700,7 +700,11 @@ impl InvalidLiquidToken<'_> {
         // Reparses from the line where invalid liquid started, in order
         // to raise the error.
         let mut error = match LiquidParser::parse(Rule::LiquidFile, &text) {
-            Ok(_) => panic!("`LiquidParser::parse` should fail in InvalidLiquidTokens."),
+            // The rest of the line before the token can change how the token reads (it may open
+            // a string literal that swallows it); the token is reported by itself then.
+            Ok(_) => {
+                return error_from_pair(self.element, "Invalid liquid.".to_string()).into_err();
+            }
             Err(error) => error,
         };
 
